@@ -8,6 +8,7 @@
 //!         -> ok | err <DuplicateKey|DuplicateLocalSignatures|ValueTooLarge|io|other> | panic | timeout
 //!      kt  key type: usize u64 u8 u128 string strref str      w  value word: 8 16 32 64 size
 //!      be  backend: box bfv      sw  signature words 1|2      lg  shards|noshards|fullsigs
+//!          (`lg=mwhc` = `Mwhc3Shards`, feature `mwhc`, directed section J only: no `parts`/`get`, sampled `qbig`)
 //!      lk  key lender: vec (instrumented) | fii (FromIntoIterator) | line (LineLender)
 //!      ks  key set: seq:<start> | rnd:<seed> | perm:<seed>    vs  values: id|zero|ones|rnd:<s>|rndb:<bits>:<s>
 //!      fb  filter bits (bfv filters) or `-`    off/lm/th/eps/lb/seed/hint/dups: builder setters (`-` = unset)
@@ -18,7 +19,9 @@
 //!   parts <lg> <sw> <shift> <log2seg> <l> <seed> <n> <bw> <[cells]>           -> ok <number of cells>
 //!   len | hash_bits | mask                                                     -> ok <v>
 //!   attempts            calls of try_seed in the last build (instrumented lender)  -> ok <k>
-//!   get <s0> <s1> | getu <s0> <s1>          (member keys: the real `get(key)`; else get_by_sig) -> ok <v>
+//!   get <s0> <s1> | getu <s0> <s1>          (member keys: the real `get(key)` / `get_unaligned(key)` of the
+//!                       function or filter; else `get_by_sig` / `get_by_sig_unaligned`)          -> ok <v>
+//!                       (`contains*` likewise: `contains(key)`, `contains_unaligned(key)`, `filter[key]`)
 //!   contains|containsu|index <s0> <s1>                                         -> ok <0|1>
 //!   fp <b> <probes>     false-positive count over non-member keys vs 6-sigma band -> ok in-band | ok out-of-band
 //!   solve [idx|high|low] <[s0,s1,val,...]>  unsharded function builds: peel + assign recomputed by
@@ -217,6 +220,31 @@ pub trait Backend<W: WordT>: BitFieldSlice<W> + Send + Sync + 'static {
     ) -> bool
     where
         Self: Sized;
+    /// `VFunc::get_unaligned(key)`
+    fn gu<T: ?Sized + ToSig<S>, S: Sig, E: ShardEdge<S, 3>>(f: &VFunc<T, W, Self, S, E>, key: &T) -> W
+    where
+        Self: Sized;
+    /// `VFilter::get_by_sig_unaligned(sig)`
+    fn fgbsu<T: ?Sized + ToSig<S>, S: Sig, E: ShardEdge<S, 3>>(
+        f: &VFilter<W, VFunc<T, W, Self, S, E>>,
+        sig: S,
+    ) -> W
+    where
+        Self: Sized;
+    /// `VFilter::get_unaligned(key)`
+    fn fgu<T: ?Sized + ToSig<S>, S: Sig, E: ShardEdge<S, 3>>(
+        f: &VFilter<W, VFunc<T, W, Self, S, E>>,
+        key: &T,
+    ) -> W
+    where
+        Self: Sized;
+    /// `VFilter::contains_unaligned(key)`
+    fn cu<T: ?Sized + ToSig<S>, S: Sig, E: ShardEdge<S, 3>>(
+        f: &VFilter<W, VFunc<T, W, Self, S, E>>,
+        key: &T,
+    ) -> bool
+    where
+        Self: Sized;
 }
 impl<W: WordT> Backend<W> for Box<[W]>
 where
@@ -236,6 +264,27 @@ where
     fn cbsu<T: ?Sized + ToSig<S>, S: Sig, E: ShardEdge<S, 3>>(
         _f: &VFilter<W, VFunc<T, W, Self, S, E>>,
         _sig: S,
+    ) -> bool {
+        panic!("no unaligned reads on slices")
+    }
+    fn gu<T: ?Sized + ToSig<S>, S: Sig, E: ShardEdge<S, 3>>(_f: &VFunc<T, W, Self, S, E>, _key: &T) -> W {
+        panic!("no unaligned reads on slices")
+    }
+    fn fgbsu<T: ?Sized + ToSig<S>, S: Sig, E: ShardEdge<S, 3>>(
+        _f: &VFilter<W, VFunc<T, W, Self, S, E>>,
+        _sig: S,
+    ) -> W {
+        panic!("no unaligned reads on slices")
+    }
+    fn fgu<T: ?Sized + ToSig<S>, S: Sig, E: ShardEdge<S, 3>>(
+        _f: &VFilter<W, VFunc<T, W, Self, S, E>>,
+        _key: &T,
+    ) -> W {
+        panic!("no unaligned reads on slices")
+    }
+    fn cu<T: ?Sized + ToSig<S>, S: Sig, E: ShardEdge<S, 3>>(
+        _f: &VFilter<W, VFunc<T, W, Self, S, E>>,
+        _key: &T,
     ) -> bool {
         panic!("no unaligned reads on slices")
     }
@@ -261,6 +310,27 @@ where
         sig: S,
     ) -> bool {
         f.contains_by_sig_unaligned(sig)
+    }
+    fn gu<T: ?Sized + ToSig<S>, S: Sig, E: ShardEdge<S, 3>>(f: &VFunc<T, W, Self, S, E>, key: &T) -> W {
+        f.get_unaligned(key)
+    }
+    fn fgbsu<T: ?Sized + ToSig<S>, S: Sig, E: ShardEdge<S, 3>>(
+        f: &VFilter<W, VFunc<T, W, Self, S, E>>,
+        sig: S,
+    ) -> W {
+        f.get_by_sig_unaligned(sig)
+    }
+    fn fgu<T: ?Sized + ToSig<S>, S: Sig, E: ShardEdge<S, 3>>(
+        f: &VFilter<W, VFunc<T, W, Self, S, E>>,
+        key: &T,
+    ) -> W {
+        f.get_unaligned(key)
+    }
+    fn cu<T: ?Sized + ToSig<S>, S: Sig, E: ShardEdge<S, 3>>(
+        f: &VFilter<W, VFunc<T, W, Self, S, E>>,
+        key: &T,
+    ) -> bool {
+        f.contains_unaligned(key)
     }
 }
 
@@ -740,6 +810,7 @@ pub trait Inst: Send {
     fn is_bfv(&self) -> bool;
     fn unaligned_ok(&self) -> bool;
     fn len(&self) -> usize;
+    fn is_empty(&self) -> bool;
     fn parts(&self) -> Parts;
     fn sig(&self, q: KQ) -> (u64, u64);
     fn get(&self, q: KQ) -> u64;
@@ -819,6 +890,9 @@ where
     fn len(&self) -> usize {
         self.f.len()
     }
+    fn is_empty(&self) -> bool {
+        self.f.is_empty()
+    }
     fn parts(&self) -> Parts {
         parts_of(&self.f)
     }
@@ -831,9 +905,8 @@ where
         self.ks.with(q, |k| self.f.get(k).to64())
     }
     fn getu(&self, q: KQ) -> u64 {
-        let seed = self.f.verif_parts().1;
-        self.ks
-            .with(q, |k| D::gbsu(&self.f, <KK::T as ToSig<S>>::to_sig(k, seed)).to64())
+        // the key-based public method (`get_unaligned`), not the by-signature one
+        self.ks.with(q, |k| D::gu(&self.f, k).to64())
     }
     fn contains(&self, _q: KQ) -> bool {
         unreachable!()
@@ -890,6 +963,9 @@ where
     fn len(&self) -> usize {
         self.f.len()
     }
+    fn is_empty(&self) -> bool {
+        self.f.is_empty()
+    }
     fn parts(&self) -> Parts {
         parts_of(self.f.verif_parts().0)
     }
@@ -902,18 +978,15 @@ where
         self.ks.with(q, |k| self.f.get(k).to64())
     }
     fn getu(&self, q: KQ) -> u64 {
-        let func = self.f.verif_parts().0;
-        let seed = func.verif_parts().1;
-        self.ks
-            .with(q, |k| D::gbsu(func, <KK::T as ToSig<S>>::to_sig(k, seed)).to64())
+        // `VFilter::get_unaligned(key)`
+        self.ks.with(q, |k| D::fgu(&self.f, k).to64())
     }
     fn contains(&self, q: KQ) -> bool {
         self.ks.with(q, |k| self.f.contains(k))
     }
     fn containsu(&self, q: KQ) -> bool {
-        let seed = self.f.verif_parts().0.verif_parts().1;
-        self.ks
-            .with(q, |k| D::cbsu(&self.f, <KK::T as ToSig<S>>::to_sig(k, seed)))
+        // `VFilter::contains_unaligned(key)`
+        self.ks.with(q, |k| D::cu(&self.f, k))
     }
     fn index(&self, q: KQ) -> bool {
         self.ks.with(q, |k| self.f[k])
@@ -922,7 +995,11 @@ where
         self.f.get_by_sig(S::from2(s0, s1)).to64()
     }
     fn getu_by_sig(&self, s0: u64, s1: u64) -> u64 {
-        D::gbsu(self.f.verif_parts().0, S::from2(s0, s1)).to64()
+        // `VFilter::get_by_sig_unaligned`, cross-checked against the inner function's method
+        let a = D::fgbsu(&self.f, S::from2(s0, s1)).to64();
+        let b = D::gbsu(self.f.verif_parts().0, S::from2(s0, s1)).to64();
+        assert_eq!(a, b, "VFilter::get_by_sig_unaligned differs from VFunc::get_by_sig_unaligned");
+        a
     }
     fn contains_by_sig(&self, s0: u64, s1: u64) -> bool {
         self.f.contains_by_sig(S::from2(s0, s1))
@@ -1138,6 +1215,9 @@ macro_rules! combos {
             $( ($kind, stringify!($lk), $ktn, $wn, $ben, $swn, $lgn) ),*
         ];
         fn dispatch(spec: &Spec) -> BuildOut {
+            if spec.lg == "mwhc" {
+                return dispatch_mwhc(spec);
+            }
             let kind = if spec.filter { "filter" } else { "func" };
             let lk = if spec.take { "take" } else { spec.lk.as_str() };
             $(
@@ -1220,6 +1300,28 @@ combos! {
     (fbfv, "filter", vec, "usize", KUsize, "64", u64, "bfv", BF<u64>, 2, S2, "fullsigs", FuseLge3FullSigs),
     (fbfv, "filter", vec, "string", KString, "size", usize, "bfv", BF<usize>, 2, S2, "shards", FuseLge3Shards),
     (fbfv, "filter", vec, "u8", KU8, "16", u16, "bfv", BF<u16>, 1, S1, "noshards", FuseLge3NoShards),
+}
+
+/// `Mwhc3Shards` (feature `mwhc`): not part of `COMBOS` (the random part must not draw the sizes of
+/// known finding D30); reached only through the directed section J with `lg=mwhc`.  Its sharding
+/// depends on `eps` at every size and it never uses lazy Gaussian elimination, so that `low_mem`
+/// and the thread limit select the peeler already at 120 000 keys (4 shards with eps = 1).
+#[cfg(feature = "mwhc")]
+fn dispatch_mwhc(spec: &Spec) -> BuildOut {
+    use sux::func::shard_edge::Mwhc3Shards;
+    let lk = if spec.take { "take" } else { spec.lk.as_str() };
+    match (spec.filter, lk, spec.kt.as_str(), spec.w.as_str(), spec.be.as_str(), spec.sw) {
+        (false, "vec", "usize", "size", "bfv", 2) => func!(spec, vec, KUsize, usize, BF<usize>, S2, Mwhc3Shards),
+        (false, "vec", "usize", "64", "box", 2) => func!(spec, vec, KUsize, u64, BX<u64>, S2, Mwhc3Shards),
+        (true, "vec", "usize", "8", "box", 2) => fbox!(spec, vec, KUsize, u8, BX<u8>, S2, Mwhc3Shards),
+        (true, "vec", "usize", "64", "bfv", 2) => fbfv!(spec, vec, KUsize, u64, BF<u64>, S2, Mwhc3Shards),
+        _ => BuildOut { res: Err("err unsupported".into()), passes: 0 },
+    }
+}
+
+#[cfg(not(feature = "mwhc"))]
+fn dispatch_mwhc(_spec: &Spec) -> BuildOut {
+    BuildOut { res: Err("err unsupported".into()), passes: 0 }
 }
 
 pub enum Guarded {
@@ -1381,7 +1483,13 @@ impl St {
             }
         }
         // naive oracle
-        if spec.take {
+        let fb_bad = spec.filter
+            && spec.be == "bfv"
+            && spec.fb.map(|b| b == 0 || b > spec.wbits()).unwrap_or(false);
+        if fb_bad {
+            // `assert!(filter_bits > 0)`, `assert!(filter_bits <= W::BITS)`
+            ctx.check_oracle("panic", &reply);
+        } else if spec.take {
             ctx.check_oracle(&format!("ok {}", n), &reply);
         } else if spec.short {
             // not covered by the properties: model vs implementation only
@@ -1487,6 +1595,11 @@ impl St {
                 let r = format!("ok {}", inst.len());
                 let n = self.spec.as_ref().unwrap().n;
                 ctx.check_oracle(&format!("ok {}", n), &r);
+                // `is_empty` of the function / filter
+                ctx.check_oracle(
+                    &format!("is_empty {}", inst.len() == 0),
+                    &format!("is_empty {}", inst.is_empty()),
+                );
                 r
             }
             "hash_bits" | "mask" if !inst.is_filter() => "err kind".into(),
@@ -2095,7 +2208,9 @@ fn run_case(ctx: &mut Ctx, spec: &Spec, o: &Opts) {
         return;
     }
     let n = spec.n;
-    if n <= PARTS_MAX_N || o.force_parts {
+    // no model of the MWHC edge logic on the Lean side: no exported cells, sampled member queries only
+    let modelled = spec.lg != "mwhc";
+    if modelled && (n <= PARTS_MAX_N || o.force_parts) {
         let pl = parts_line(spec, &st.inst.as_ref().unwrap().parts());
         st.exec(ctx, &pl, false);
         if !spec.filter
@@ -2143,7 +2258,7 @@ fn run_case(ctx: &mut Ctx, spec: &Spec, o: &Opts) {
         let i = st.inst.as_ref().unwrap();
         i.is_bfv() && i.unaligned_ok()
     };
-    if n <= PARTS_MAX_N {
+    if modelled && n <= PARTS_MAX_N {
         for i in 0..n {
             let (s0, s1) = st.inst.as_ref().unwrap().sig(KQ::Member(i));
             st.exec(ctx, &format!("get {} {}", s0, s1), false);
@@ -2657,6 +2772,168 @@ pub fn run(ctx: &mut Ctx) {
             s.ks = if k % 2 == 0 { Ks::Seq(7 * k as u64) } else { Ks::Rnd(90 + k as u64) };
             s.seed = k as u64;
             run_case(ctx, &s, &ho);
+        }
+    }
+
+
+    // J. API audit: every VBuilder setter at its extreme values and in combination (D16, D31 and
+    //    the seeded changes C07-d / C17-c were all configuration dependent)
+    {
+        // J1. n = 400 (cheap): one knob after the other walks through its extremes while the
+        //     others cycle with co-prime periods
+        let ths = [3usize, 4, 64, usize::MAX, 1, 2, 8];
+        let epss = ["0", "1e-12", "1", "1e9", "NaN", "inf", "-1", "0.001"];
+        let lbs_on = [Some(10u32), Some(12), None, Some(0), Some(7)];
+        let lbs_off = [Some(0u32), Some(1), Some(5), Some(3)];
+        let hints = [Some(0usize), Some(1), Some(399), Some(401), None, Some(400)];
+        let seeds = [u64::MAX, 0, 1 << 63, 0x5555_5555_5555_5555];
+        let lms = [None, Some(true), Some(false)];
+        let jc = [
+            default_func,
+            box_func,
+            ns1_func,
+            fs_func,
+            combo_of("filter", "vec", "usize", "8", "box", 2, "shards"),
+            combo_of("filter", "vec", "usize", "64", "bfv", 2, "fullsigs"),
+            ns2_func,
+        ];
+        let rounds = if thorough { 120 } else { 36 };
+        for k in 0..rounds {
+            let c = &jc[k % jc.len()];
+            let mut s = base_spec(c, if k % 9 == 8 { 0 } else { 400 });
+            s.off = k % 4 == 1;
+            s.th = ths[k % ths.len()];
+            s.eps = Some(epss[k % epss.len()].to_string());
+            s.lb = if s.off { lbs_off[k % lbs_off.len()] } else { lbs_on[k % lbs_on.len()] };
+            s.hint = hints[k % hints.len()];
+            s.seed = seeds[k % seeds.len()];
+            s.lm = lms[k % lms.len()];
+            s.dups = k % 5 == 2;
+            s.vs = Vs::Rnd(k as u64);
+            s.ks = if k % 2 == 0 { Ks::Rnd(1000 + k as u64) } else { Ks::Seq(k as u64) };
+            if c.0 == "filter" && c.4 == "bfv" {
+                s.fb = Some([1usize, 64, 7, 33][k % 4]);
+            }
+            ctx.stat("setter_extremes");
+            run_case(ctx, &s, &o);
+        }
+        // J2. `try_build_filter(keys, filter_bits, ..)` outside 1..=W::BITS: explicit `assert!`s
+        for (w, fb) in [("64", 0usize), ("64", 65), ("8", 9), ("16", 0), ("size", 1000)] {
+            let c = combo_of("filter", "vec", "usize", w, "bfv", 2, "shards");
+            let mut s = base_spec(&c, 10);
+            s.fb = Some(fb);
+            ctx.stat("filter_bits_out_of_range");
+            run_case(ctx, &s, &o);
+        }
+        // J3. Mwhc3Shards, 120 000 keys, eps = 1: 4 shards and no lazy Gaussian elimination, so
+        //     offline x low_mem x threads (below / at / above the `> 3` threshold and the number of
+        //     shards) select the store, the peeler and the worker / shard ratio
+        if cfg!(feature = "mwhc") {
+            let mw = |kind: &str, w: &str, be: &str, n: usize| -> Spec {
+                let mut s = base_spec(&(if kind == "func" { default_func } else { fs_filter }), n);
+                s.filter = kind == "filter";
+                s.w = w.into();
+                s.be = be.into();
+                s.lg = "mwhc".into();
+                s.eps = Some("1".into());
+                s
+            };
+            let mut k = 0usize;
+            for off in [false, true] {
+                for lm in [None, Some(false), Some(true)] {
+                    for th in [1usize, 2, 3, 4, 8] {
+                        if !thorough && off && th == 2 {
+                            continue;
+                        }
+                        let mut s = match k % 4 {
+                            0 | 2 => mw("func", "size", "bfv", 120_000),
+                            1 => mw("func", "64", "box", 120_000),
+                            _ => mw("filter", "8", "box", 120_000),
+                        };
+                        s.off = off;
+                        s.lm = lm;
+                        s.th = th;
+                        // bucket bits below / at / above the 2 shard bits
+                        s.lb = if off { [Some(0u32), Some(1), Some(2), Some(3)][k % 4] } else { [Some(0u32), Some(2), Some(4), None][k % 4] };
+                        s.hint = [None, Some(120_000usize), Some(300), Some(20_000_000), Some(0)][k % 5];
+                        if s.hint.is_some() && off {
+                            // the hint overrides log2_buckets with the shard bits of the hint
+                            s.hint = [Some(120_000usize), Some(300), Some(0)][k % 3];
+                        }
+                        s.dups = k % 3 == 1;
+                        s.seed = k as u64;
+                        s.vs = Vs::Rnd(k as u64 + 1);
+                        ctx.stat("mwhc_sharded_knobs");
+                        run_case(ctx, &s, &o);
+                        k += 1;
+                    }
+                }
+            }
+            // eps decides the number of shards (1, 2, 4, 8) at every size
+            for (j, (n, eps)) in [
+                (120_000usize, "0.001"), (120_000, "0.05"), (120_000, "0.1"), (120_000, "1e9"), (120_000, "NaN"),
+                (120_000, "0"), (500_000, "1"), (500_000, "0.1"), (40_000, "1"), (1000, "1"),
+            ]
+            .into_iter()
+            .enumerate()
+            {
+                let mut s = if j % 3 == 2 { mw("filter", "64", "bfv", n) } else { mw("func", "size", "bfv", n) };
+                if s.filter {
+                    s.fb = Some(5);
+                }
+                s.eps = Some(eps.into());
+                s.th = [8usize, 3, 4][j % 3];
+                s.off = j % 4 == 3;
+                s.lb = if s.off { Some(2) } else { None };
+                s.seed = 70 + j as u64;
+                s.vs = Vs::Rnd(j as u64);
+                ctx.stat("mwhc_eps");
+                run_case(ctx, &s, &o);
+            }
+            // duplicates with fewer threads than shards, function and filter
+            for (j, th) in [1usize, 2, 3].into_iter().enumerate() {
+                let mut s = if j == 1 { mw("filter", "8", "box", 120_000) } else { mw("func", "size", "bfv", 120_000) };
+                s.dd = vec![(119_999, j), (60_000, 60_001)];
+                s.dups = true;
+                s.th = th;
+                s.off = j == 2;
+                s.lb = Some(2);
+                s.vs = Vs::Zero;
+                ctx.stat("mwhc_dup_few_threads");
+                run_case(ctx, &s, &o);
+            }
+        }
+        // J4. the default fuse logic in its sharded regime (4 shards at 200 001 keys): an
+        //     orthogonal sample of (offline, threads, log2_buckets, hint, check_dups)
+        {
+            let n = 200_001usize;
+            let mut plan: Vec<(bool, usize, Option<u32>, Option<usize>, bool)> = vec![
+                (false, 3, Some(0), None, false),
+                (true, 4, Some(1), Some(n), true),
+            ];
+            if thorough {
+                plan.extend([
+                    (false, 64, Some(12), Some(1), false),
+                    (true, 1, Some(3), Some(400 * n), false),
+                    (false, usize::MAX, None, Some(0), true),
+                    (true, 2, Some(2), None, false),
+                    (false, 4, Some(2), Some(n - 1), false),
+                    (true, 3, Some(0), Some(n + 1), true),
+                ]);
+            }
+            for (j, (off, th, lb, hint, dups)) in plan.into_iter().enumerate() {
+                let c = if j % 2 == 0 { default_func } else { box_func };
+                let mut s = base_spec(&c, n);
+                s.off = off;
+                s.th = th;
+                s.lb = lb;
+                s.hint = hint;
+                s.dups = dups;
+                s.seed = 900 + j as u64;
+                s.vs = Vs::Rnd(j as u64);
+                ctx.stat("fuse_sharded_knobs");
+                run_case(ctx, &s, &o);
+            }
         }
     }
 
